@@ -63,14 +63,64 @@ def handle (op : String) (a r : Json) : Except String Reply := do
            sig := if holds then "" else
              (if acc then "C09/verify/admissible-peer-refused" else "C09/verify/inadmissible-peer-accepted") }
   | "verifyseq" =>
-    -- every handshake is judged on its own certificate: the pinned one is accepted, the other refused,
-    -- whatever the verifier has seen before
+    -- every handshake is judged on the leaf of the chain it presents: the pinned certificate A is accepted,
+    -- B refused, whatever is appended to the chain and whatever the verifier has seen before
     let seq ← getStrList a "seq"
-    let m := jObj [("accepts", jArr (seq.map fun w => Json.bool (w == "A")))]
+    let role := if (getStr a "role").toOption.getD "server" == "client" then Role.client else Role.server
+    let digestOf (isA : Bool) : Nat → Bytes := fun n => (if isA then 1 else 2) :: List.replicate (n - 1) 0
+    let peerOf (ch : Char) : Peer :=
+      { parsed := true, chainOK := true, validNow := true, usageServer := true, usageClient := true, dnsOK := false,
+        names := some ["node-a".toUTF8.toList.map (·.toNat)], digest := digestOf (ch == 'A') }
+    let pinLen : String → Nat
+      | "sha224" => 28 | "sha256" => 32 | "sha384" => 48 | _ => 64
+    let pins := (← getStrList a "pins").map fun p => digestOf true (pinLen p)
+    let cfg : Cfg := { pins := pins, expected := "node-a".toUTF8.toList.map (·.toNat), mode := .receptor, role := role }
+    let m := jObj [("accepts", jArr (seq.map fun w => Json.bool (decideChain cfg (w.toList.map peerOf))))]
+    let holds := r == m
+    let chained := seq.any fun w => w.length > 1
+    pure { m := m, prop := some holds,
+           why := if holds then "" else (if chained then "a verifier did not judge each handshake on the leaf of the presented chain against the pins (a certificate appended to the chain, or an earlier handshake, changed the verdict)"
+                  else "a verifier serving several handshakes did not judge each certificate against the pins on its own"),
+           sig := if holds then "" else (if chained then "C09/verifyseq/pin-decision-not-on-the-leaf-alone" else "C09/verifyseq/pin-decision-depends-on-earlier-handshakes") }
+  | "mtls" =>
+    if let some e := optField r "error" then throw s!"harness error: {e.compress}"
+    let require ← getBool a "require"
+    let cas ← getBool a "cas"
+    let pres ← getStrList a "present"
+    let node2 := "node2".toUTF8.toList.map (·.toNat)
+    let node3 := "node3".toUTF8.toList.map (·.toNat)
+    let mk (ids : List Bytes) (trusted valid clientUse : Bool) : Peer :=
+      -- without a `clientcas` bundle the listener has no authority to chain a client certificate to
+      { parsed := true, chainOK := trusted && cas, validNow := valid, usageServer := true, usageClient := clientUse, dnsOK := true,
+        names := some ids, digest := fun _ => [] }
+    let certOf : String → Option Peer
+      | "own" => some (mk [node2] true true true)
+      | "other" => some (mk [node3] true true true)
+      | "both" => some (mk [node3, node2] true true true)
+      | "otherca" => some (mk [node2] false true true)
+      | "expired" => some (mk [node2] true false true)
+      | "serverusage" => some (mk [node2] true true false)
+      | _ => none
+    let m := jObj [("established", jArr (pres.map fun p => Json.bool (established require cas node2 (certOf p))))]
+    let holds := r == m
+    let obs := (getArr r "established").toOption.getD []
+    let tooMany := (obs.zip (pres.map fun p => established require cas node2 (certOf p))).any fun (o, e) => o == Json.bool true && !e
+    pure { m := m, prop := some holds,
+           why := if holds then "" else (if tooMany then "a stream was established on a TLS listener by a client that the listener's profile must refuse (another node's identity, no certificate, untrusted, expired or unusable certificate)"
+                  else "a client that the listener's profile admits could not establish a stream"),
+           sig := if holds then "" else (if tooMany then "C09/mtls/inadmissible-client-established" else "C09/mtls/admissible-client-refused") }
+  | "verifytime" =>
+    let role := if (getStr a "role").toOption.getD "server" == "client" then Role.client else Role.server
+    let peer (valid : Bool) : Peer :=
+      { parsed := true, chainOK := true, validNow := valid, usageServer := true, usageClient := true, dnsOK := false,
+        names := some ["node-a".toUTF8.toList.map (·.toNat)], digest := fun _ => [] }
+    let cfg : Cfg := { pins := [], expected := "node-a".toUTF8.toList.map (·.toNat), mode := .receptor, role := role }
+    -- validity is judged at the time of the handshake: issued after the verifier was created ⇒ valid now; expired since ⇒ not
+    let m := jObj [("fresh", Json.bool (decide cfg (peer true))), ("lapsed", Json.bool (decide cfg (peer false)))]
     let holds := r == m
     pure { m := m, prop := some holds,
-           why := if holds then "" else "a verifier serving several handshakes did not judge each certificate against the pins on its own",
-           sig := if holds then "" else "C09/verifyseq/pin-decision-depends-on-earlier-handshakes" }
+           why := if holds then "" else "a verifier created earlier did not judge validity at the time of the handshake (a certificate issued since was refused, or one expired since was accepted)",
+           sig := if holds then "" else "C09/verifytime/validity-not-judged-at-handshake-time" }
   | _ => throw s!"bad-op cert {op}"
 
 end Receptor.Drive.Cert
